@@ -6,22 +6,22 @@ from harness.c01_ndef import lens_for
 PROPERTY = "C02"
 
 
-def t2(sx, S, prefix, rsv, oldlens, lens, long, retry=False, outage=0):
+def t2(sx, S, prefix, rsv, oldlens, lens, long, retry=False, outage=0, relation=None):
     oldlen = sx.pick("oldlen", oldlens)
     w = worlds.T2World(sx, S, prefix, [tuple(r) for r in rsv], oldlen,
                        old_lt_80=long)
     w.long_trick = long
     n = sx.pick("n", [x for x in lens_for(w.cap, lens) if x <= w.cap])
-    return ndefflow.cutflow(sx, w, n, retry, outage)
+    return ndefflow.cutflow(sx, w, n, retry, outage, relation)
 
 
-def t1(sx, hr, size, prefix, rsv, oldlens, lens, long, retry=False, outage=0):
+def t1(sx, hr, size, prefix, rsv, oldlens, lens, long, retry=False, outage=0, relation=None):
     oldlen = sx.pick("oldlen", oldlens)
     w = worlds.T1World(sx, tuple(hr), size, prefix, [tuple(r) for r in rsv], oldlen,
                        old_lt_80=long)
     w.long_trick = long
     n = sx.pick("n", [x for x in lens_for(w.cap, lens) if x <= w.cap])
-    return ndefflow.cutflow(sx, w, n, retry, outage)
+    return ndefflow.cutflow(sx, w, n, retry, outage, relation)
 
 
 def t3(sx, nbr, nbw, nmaxb, oldlens, lens, emulated, retry=False, outage=0):
@@ -168,6 +168,20 @@ def partitions(tier):
             parts.append(dict(name="t1:dyn:%s:%s" % (prefix or "-", tag), fn="t1",
                               params=dict(hr=[0x12, 0x4C], size=512, prefix=prefix, rsv=[],
                                           oldlens=oldlens, lens=lens, long=True)))
+    # the new message begins with the stored one (a record appended) or is a
+    # prefix of it: unchanged pages are skipped by the writers, so a cut can
+    # leave a new length over data that "is already there"
+    for nulls in (0, 1, 2):
+        prefix = "N" * nulls
+        for rel, oldlens, lens in (("append", [3, 260], [3, 9, 300, 320]),
+                                   ("truncate", [9, 300], [3, 260, 300])):
+            parts.append(dict(name="t2:496:%s:%s" % (prefix or "-", rel), fn="t2",
+                              params=dict(S=496, prefix=prefix, rsv=[], oldlens=oldlens, lens=lens,
+                                          long=True, relation=rel)))
+            if nulls < 2:
+                parts.append(dict(name="t1:dyn:%s:%s" % (prefix or "-", rel), fn="t1",
+                                  params=dict(hr=[0x12, 0x4C], size=512, prefix=prefix, rsv=[],
+                                              oldlens=oldlens, lens=lens, long=True, relation=rel)))
     parts.append(dict(name="t1:dyn:LM:mixed", fn="t1",
                       params=dict(hr=[0x12, 0x00], size=512, prefix="LM", rsv=[[122, 6], [120, 2]],
                                   oldlens=[0, 9], lens=[4, 100] + ([255] if tier != "quick" else []),
@@ -244,7 +258,7 @@ def partitions(tier):
     return parts
 
 
-MUST_REACH = ["cut", "cut_before_first_write", "write_completed_without_cut",
+MUST_REACH = ["new_message_appends_to_old", "new_message_is_prefix_of_old", "cut", "cut_before_first_write", "write_completed_without_cut",
               "after_cut_empty", "after_cut_old_or_new", "length_field_straddles_write_unit",
               "after_cut_not_readable", "retry_completed", "retry_cut",
               "lite_authenticated_reader_after_cut_in_data_phase",
